@@ -60,9 +60,16 @@ def tosigned(v, n): return v - (1 << n) if v >> (n - 1) else v
 
 
 class Obj:
-    __slots__ = ('size', 'cells', 'alive', 'name', 'kind')
+    __slots__ = ('size', 'cells', 'alive', 'name', 'kind', 'fills', 'zero')
     def __init__(self, size, name, kind):
         self.size = size; self.cells = {}; self.alive = True; self.name = name; self.kind = kind
+        self.fills = []            # (lo, hi, byte value) ranges written by large memsets, most recent last; cells take priority
+        self.zero = (kind == 'zero')
+
+    def default_byte(self, off):
+        for lo, hi, v in reversed(self.fills):
+            if lo <= off < hi: return v
+        return 0 if self.zero else None
 
 
 class Layout:
@@ -162,8 +169,20 @@ class Interp:
         dt = time.time() - t; self.stats['solver_s'] += dt
         if dt > 5 and os.environ.get('VERIF_SLOWQ'):
             sys.stderr.write('SLOW QUERY %.1fs result=%s extra=%s\n  pc=%s\n' % (dt, r, extra, [str(c)[:200] for c in self.pc][-12:]))
-        if r == z3.unknown: raise Unsupported('solver unknown')
+        if r == z3.unknown:
+            # retry once from scratch (fresh solver, whole path condition) before giving up on the path
+            s2 = z3.Solver(); s2.set('timeout', 240000)
+            for c in self.solver.assertions(): s2.add(c)
+            if extra is not None: s2.add(extra)
+            t = time.time(); r = s2.check(); self.stats['solver_s'] += time.time() - t; self.stats['retries'] = self.stats.get('retries', 0) + 1
+            if r == z3.unknown: raise Unsupported('solver unknown (%s)' % s2.reason_unknown())
+            self.msrc = s2
+        else: self.msrc = self.solver
         return r == z3.sat
+
+    def get_model(self):
+        """model of the last satisfiable check()"""
+        return self.msrc.model()
 
     def term(self, v, n):
         if isinstance(v, Sym):
@@ -198,7 +217,7 @@ class Interp:
         if z3.is_false(cond) or self.check(z3.Not(cond)):
             e = Finding(kind, msg)
             if z3.is_false(cond): self.check()
-            e.model = self.solver.model(); raise e
+            e.model = self.get_model(); raise e
 
     def defer_obligation(self, cond, kind, msg):
         """UB-style side condition (no overflow, ...): collected and discharged with ONE query when the path ends.
@@ -212,7 +231,7 @@ class Interp:
         po = self.pending_obl; self.pending_obl = []
         if not po: return
         if self.check(z3.Not(z3.And([c for c, _, _ in po]))):
-            mdl = self.solver.model()
+            mdl = self.get_model()
             for c, kind, msg in po:
                 if not z3.is_true(mdl.eval(c, model_completion=True)):
                     e = Finding(kind, msg); e.model = mdl; raise e
@@ -278,8 +297,8 @@ class Interp:
             for i in range(size):
                 b = o.cells.get((off + i, 1))
                 if b is None:
-                    if o.kind == 'zero': b = 0
-                    else: b = self.fresh('uninit_%s_%d' % (o.name, off + i), 8)
+                    b = o.default_byte(off + i)
+                    if b is None: b = self.fresh('uninit_%s_%d' % (o.name, off + i), 8)
                     o.cells[(off + i, 1)] = b
                 bs.append(b)
             if all(not isinstance(b, Sym) for b in bs):
@@ -312,7 +331,7 @@ class Interp:
         off = z3.simplify(addr.t - z3.BitVecVal(obase, 64))
         inb = z3.ULE(off, o.size - size) if o.size >= size else z3.BoolVal(False)
         if self.check(z3.Not(inb)):
-            e = Finding('out-of-bounds', 'load of %d bytes at symbolic offset into %s (size %d)' % (size, o.name, o.size)); e.model = self.solver.model(); raise e
+            e = Finding('out-of-bounds', 'load of %d bytes at symbolic offset into %s (size %d)' % (size, o.name, o.size)); e.model = self.get_model(); raise e
         self.assume(inb)
         # feasible offsets: all positions (stride 1) that the solver does not exclude cheaply by interval
         offs = list(range(0, o.size - size + 1))
@@ -564,12 +583,12 @@ class Interp:
             mv = True if z3.is_true(ev) else (False if z3.is_false(ev) else None)
         if mv is None:
             t = self.check(c)
-            if t: self.model = self.solver.model(); f = self.check(z3.Not(c)); mt = self.model; mf = self.solver.model() if f else None
-            else: f = self.check(z3.Not(c)); mt = None; mf = self.solver.model() if f else None
+            if t: self.model = self.get_model(); f = self.check(z3.Not(c)); mt = self.model; mf = self.get_model() if f else None
+            else: f = self.check(z3.Not(c)); mt = None; mf = self.get_model() if f else None
         elif mv:
-            t = True; mt = self.model; f = self.check(z3.Not(c)); mf = self.solver.model() if f else None
+            t = True; mt = self.model; f = self.check(z3.Not(c)); mf = self.get_model() if f else None
         else:
-            f = True; mf = self.model; t = self.check(c); mt = self.solver.model() if t else None
+            f = True; mf = self.model; t = self.check(c); mt = self.get_model() if t else None
         if t and f:
             self.work.append(self.trace + [False]); d = True
         elif t: d = True
@@ -590,7 +609,7 @@ class Interp:
         vals = []
         self.solver.push()
         while len(vals) <= cap and self.check():
-            mv = self.solver.model().eval(t, model_completion=True).as_long(); vals.append(mv)
+            mv = self.get_model().eval(t, model_completion=True).as_long(); vals.append(mv)
             self.solver.add(t != self.const(mv, v.n))
         self.solver.pop()
         if not vals: raise PathEnd()
@@ -704,9 +723,24 @@ class Interp:
             covered.update(range(k[0], k[0] + k[1]))
         for i in range(n):
             if soff + i not in covered:
-                b = 0 if so.kind == 'zero' else self.fresh('uninit', 8)
+                b = so.default_byte(soff + i)
+                if b is None: b = self.fresh('uninit', 8)
                 so.cells[(soff + i, 1)] = b; items.append((i, 1, b))
         for (o, sz, v) in items: self.store_bytes(do, doff + o, sz, v)
+
+    def memset(self, addr, v, n):
+        if n == 0: return
+        o, off = self.resolve(addr, n, 'memset')
+        if o.kind == 'const': raise Finding('write-to-const', 'memset')
+        if isinstance(v, Sym) and v.n > 8: v = self.trunc(v, v.n, 8)
+        elif not isinstance(v, Sym): v &= 0xff
+        if n <= 64:
+            for i in range(n): self.store_bytes(o, off + i, 1, v)
+            return
+        for k in [k for k in o.cells if k[0] < off + n and off < k[0] + k[1]]:
+            if k[0] < off or k[0] + k[1] > off + n: self.split_cell(o, k)
+        for k in [k for k in o.cells if k[0] >= off and k[0] + k[1] <= off + n]: del o.cells[k]
+        o.fills.append((off, off + n, v))
 
     def run_fn(self, f, fr, allocas):
         blocks = f.blocks
@@ -902,10 +936,7 @@ class Interp:
         if nm.startswith(('llvm.memcpy', 'llvm.memmove')):
             n = self.concretize(a[2], 'memcpy length'); self.memcpy(a[0], a[1], n); return None
         if nm.startswith('llvm.memset'):
-            n = self.concretize(a[2], 'memset length')
-            if n:
-                o, off = self.resolve(a[0], n, 'memset')
-                for i in range(n): self.store_bytes(o, off + i, 1, a[1] if not isinstance(a[1], Sym) else a[1])
+            self.memset(a[0], a[1], self.concretize(a[2], 'memset length'))
             return None
         if nm.startswith('llvm.eh.typeid.for'): return self.typeid(self.addr2global(a[0]))
         if nm.startswith('llvm.expect'): return a[0]
@@ -965,7 +996,7 @@ class Interp:
                 if self.path_obl: st['obl_paths'] += 1
                 if len(st['samples']) < 3 and self.inputs:
                     try:
-                        if self.check(): st['samples'].append({'inputs': self.cex(self.solver.model()), 'decisions': len(self.trace), 'obligations': self.path_obl})
+                        if self.check(): st['samples'].append({'inputs': self.cex(self.get_model()), 'decisions': len(self.trace), 'obligations': self.path_obl})
                     except Unsupported: pass
             except PathEnd:
                 pass
@@ -973,7 +1004,7 @@ class Interp:
                 st['paths'] += 1
                 mdl = getattr(e, 'model', None)
                 try:
-                    if mdl is None and self.check(): mdl = self.solver.model()
+                    if mdl is None and self.check(): mdl = self.get_model()
                 except Unsupported: mdl = None
                 if len(results) < max_findings:
                     results.append(dict(kind=e.kind, msg=e.msg, inputs=self.cex(mdl) if mdl is not None else None, decisions=len(self.trace)))
